@@ -7,7 +7,7 @@ from ..analysis import Spec, src, const_value
 from ..cfg import node_contains_call
 from ..rules import (GWF, EXC, mpt, need_func, stores_to, raise_class,
                      norm_bool, parent_map, kw, is_const, outcomes,
-                     eval_atom, UNKNOWN)
+                     eval_atom, eval_cond, UNKNOWN)
 from . import common
 from .c12 import _first_exit
 
@@ -132,6 +132,16 @@ def _guard_table(prog, an, rep, f, kind):
     if var is None:
         raise AnalysisError('anchor-missing self.dispatch(...) in ' +
                             f.qname)
+    # position of the keyword in the comment: the counter of the
+    # enumerate() loop that holds the dispatch, whatever it is called
+    idx = None
+    for lp in walk_local(f.node, include_root=False):
+        if isinstance(lp, ast.For) and any(x is disp for x in ast.walk(lp)) \
+                and isinstance(lp.iter, ast.Call) and \
+                src(lp.iter.func) == 'enumerate' and \
+                isinstance(lp.target, ast.Tuple) and \
+                isinstance(lp.target.elts[0], ast.Name):
+            idx = lp.target.elts[0].id
     params = f.params
     priv = params[4] if len(params) > 4 else None
     auth = params[5] if kind == 'option' and len(params) > 5 else None
@@ -156,7 +166,7 @@ def _guard_table(prog, an, rep, f, kind):
     n_rows = 0
     for vals in itertools.product((True, False), repeat=len(atoms)):
         env = dict(zip(atoms, vals))
-        env['idx'] = 1     # not the first keyword: a command name is an error
+        env[idx or 'idx'] = 1   # not the first keyword: a command name is an error
         n_rows += 1
         rep.evaluated()
         got = _explore(an, f, c, start, env, {h.id for h in hcalls})
@@ -175,9 +185,9 @@ def _guard_table(prog, an, rep, f, kind):
             want = {('handler',)}
         if got != want:
             rep.violation(R, '%s: guard table row %s' % (f.qname, {
-                k: v for k, v in env.items() if k != 'idx'}), f.where(disp),
+                k: v for k, v in env.items() if k != (idx or 'idx')}), f.where(disp),
                 'with %s the reactor does %s, required %s' % (
-                    {k: v for k, v in env.items() if k != 'idx'},
+                    {k: v for k, v in env.items() if k != (idx or 'idx')},
                     sorted(map(str, got)), sorted(map(str, want))))
     if not any(v.rule == R and f.qname in v.construct
                for v in rep.violations):
@@ -186,7 +196,7 @@ def _guard_table(prog, an, rep, f, kind):
     # first keyword that is a command (option parser) is ignored silently
     if kind == 'option':
         env = dict(zip(atoms, (False, False, False, False, False, False)))
-        env['idx'] = 0
+        env[idx or 'idx'] = 0
         got = _explore(an, f, c, start, env, {h.id for h in hcalls})
         rep.check(got == {('return',)}, R, f.qname + ': a leading command '
                   'name is left to the command parser', f.where(disp),
@@ -211,7 +221,7 @@ def _explore(an, f, c, start, env, handler_ids):
             out.add(('next-keyword',))
             continue
         if n.kind == 'test':
-            v = eval_atom(n.ast, env)
+            v = eval_cond(f, n.ast, env)
             if v is UNKNOWN:
                 stack.extend(s for s in c.succ[i]
                              if (i, s) not in c.exc_edges)
